@@ -23,7 +23,7 @@ TRUSTED = ["harness/run_C02.py (program renderer to Python source and to the dri
            "CPython itself as the oracle for the reference semantics (spec column == CPython on every case)"]
 
 CLS = {0: "Exception", 10: "E0", 11: "E1", 12: "E2", 13: "B0"}
-CLSNUM = {"E0": 10, "E1": 11, "E2": 12, "B0": 13, "RuntimeError": 100, "AssertionError": 101}
+CLSNUM = {"E0": 10, "E1": 11, "E2": 12, "B0": 13, "RuntimeError": 100, "AssertionError": 101, "TypeError": 102}
 
 
 # ------------------------------------------------------------------ program representation
@@ -63,9 +63,10 @@ class Gen:
 
 LEAVES = ["fall", "break", "continue", "ret", "raiseE1", "raiseE2", "raisefrom", "reraise", "assert"]
 CONSTRUCTS = ["if", "ifelse", "for", "forelse", "while", "whileelse", "tryexc", "tryfin", "tryfull", "tryany",
-              "with1", "with1s", "with2", "with2s", "with1e"]
+              "with1", "with1s", "with2", "with2s", "with1e", "with1b", "with1bs", "with2b", "with2bs", "with1a"]
 SLOTS = {"if": 1, "ifelse": 2, "for": 1, "forelse": 2, "while": 1, "whileelse": 2, "tryexc": 2, "tryfin": 2,
-         "tryfull": 4, "tryany": 2, "with1": 1, "with1s": 1, "with2": 1, "with2s": 1, "with1e": 1}
+         "tryfull": 4, "tryany": 2, "with1": 1, "with1s": 1, "with2": 1, "with2s": 1, "with1e": 1,
+         "with1b": 1, "with1bs": 1, "with2b": 1, "with2bs": 1, "with1a": 1}
 
 
 def build(g, construct, blocks):
@@ -102,6 +103,17 @@ def build(g, construct, blocks):
         return ("with", [(next(g.m), None, False), (next(g.m), None, False)], b[0])
     if construct == "with2s":
         return ("with", [(next(g.m), None, False), (next(g.m), None, True)], b[0])
+    # `as` targets: "ok" binds a name, "fail" is `as (a, b)` of a manager whose __enter__() is not iterable (TypeError)
+    if construct == "with1a":
+        return ("with", [(next(g.m), None, False, "ok")], b[0])
+    if construct == "with1b":
+        return ("with", [(next(g.m), None, False, "fail")], b[0])
+    if construct == "with1bs":
+        return ("with", [(next(g.m), None, True, "fail")], b[0])
+    if construct == "with2b":
+        return ("with", [(next(g.m), None, False, "ok"), (next(g.m), None, False, "fail")], b[0])
+    if construct == "with2bs":
+        return ("with", [(next(g.m), None, True, "fail"), (next(g.m), None, False)], b[0])
     raise ValueError(construct)
 
 
@@ -210,7 +222,10 @@ def to_src(block, ind=1):
                 out.append(pad + "finally:")
                 out += to_src(s[4], ind + 1)
         elif s[0] == "with":
-            items = ", ".join(f"CM({k}, {CLS[er] if er is not None else None}, {sup})" for k, er, sup in s[1])
+            items = ", ".join(
+                f"CM({it[0]}, {CLS[it[1]] if it[1] is not None else None}, {it[2]})" +
+                ({"ok": f" as v{it[0]}", "fail": f" as (a{it[0]}, b{it[0]})"}.get(it[3], "") if len(it) > 3 else "")
+                for it in s[1])
             out.append(f"{pad}with {items}:")
             out += to_src(s[2], ind + 1)
         else:
@@ -233,7 +248,8 @@ def to_sx(block):
             hs = [["any", to_sx(hb)] if cls is None else [list(cls), to_sx(hb)] for cls, hb in s[2]]
             out.append(["try", to_sx(s[1]), hs, to_sx(s[3]), to_sx(s[4])])
         elif s[0] == "with":
-            out.append(["with", [[k, "-" if er is None else er, sup] for k, er, sup in s[1]], to_sx(s[2])])
+            out.append(["with", [[it[0], "-" if it[1] is None else it[1], it[2]] +
+                                 ([102 if it[3] == "fail" else "-"] if len(it) > 3 else []) for it in s[1]], to_sx(s[2])])
         else:
             out.append(list(s))
     return out
@@ -268,8 +284,12 @@ def features(block, acc=None, in_else=False):
             acc.add("with")
             if len(s[1]) > 1:
                 acc.add("with-multi")
-            if any(er is not None for _, er, _ in s[1]):
+            if any(it[1] is not None for it in s[1]):
                 acc.add("with-enter-raises")
+            if any(len(it) > 3 and it[3] == "fail" for it in s[1]):
+                acc.add("with-bind-fails")
+            if any(len(it) > 3 and it[3] == "ok" for it in s[1]):
+                acc.add("with-as")
             features(s[2], acc, in_else)
         elif s[0] == "raise" and (s[1] == 13 or s[2] == 13):
             acc.add("baseexception")
@@ -308,7 +328,65 @@ def gen_cases(rng, tier, search):
         src = "def f():\n" + "\n".join(to_src(body)) + "\n"
         cases.append(Case({"src": src, "tape": [1, 1], "family": "V", "features": sorted(features(body))}, None,
                           tags=["V", "baseexception"]))
+    cases += iter_cases(rng, tier)
     return cases
+
+
+# ------------------------------------------------------------------ iteration stream (no Lean column)
+# `for` runs over the LIVE iterable / iterator, exactly like Python: the body may grow, shrink or clear the list it iterates,
+# resize a dict (RuntimeError), share one iterator between loops, or iterate a lazy map() whose function has side effects.
+ITER_TEMPLATES = [
+    ("worklist-append", "def f():\n    L = [3]\n    for x in L:\n        T(x)\n        if x > 0:\n            L.append(x - 1)\n    return len(L)\n"),
+    ("remove-upcoming", "def f():\n    L = [1, 2, 3, 4, 5]\n    for x in L:\n        T(x)\n        if x == 2:\n            L.remove(3)\n    return len(L)\n"),
+    ("clear-inside", "def f():\n    L = [1, 2, 3]\n    for x in L:\n        T(x)\n        L.clear()\n    else:\n        T(90)\n    return len(L)\n"),
+    ("dict-resize", "def f():\n    d = {1: 1, 2: 2}\n    for k in d:\n        T(k)\n        d[k + 10] = 0\n    return len(d)\n"),
+    ("iterator-after-break", "def f():\n    it = iter([1, 2, 3, 4])\n    for x in it:\n        T(x)\n        if x == 2:\n            break\n    for y in it:\n        T(10 + y)\n    return 0\n"),
+    ("iterator-after-return-in-try", "def g(it):\n    for x in it:\n        T(x)\n        return x\ndef f():\n    it = iter([5, 6, 7])\n    a = g(it)\n    b = g(it)\n    return a * 10 + b\n"),
+    ("lazy-map", "def f():\n    for x in map(T2, [1, 2, 3]):\n        T(20 + x)\n        if x == 2:\n            break\n    return 0\n"),
+    ("shared-iterator-nested", "def f():\n    it = iter(range(6))\n    for x in it:\n        T(x)\n        for y in it:\n            T(10 + y)\n            if y % 2 == 0:\n                break\n    return 0\n"),
+    ("zip-same-iterator", "def f():\n    it = iter([1, 2, 3, 4, 5])\n    for a, b in zip(it, it):\n        T(a * 10 + b)\n    return list(it)\n"),
+    ("enumerate-grow", "def f():\n    L = [0]\n    for i, x in enumerate(L):\n        T(i)\n        if i < 3:\n            L.append(i)\n    return len(L)\n"),
+    ("insert-front", "def f():\n    L = [1, 2]\n    n = 0\n    for x in L:\n        T(x)\n        n += 1\n        if n < 4:\n            L.insert(0, 9)\n    return len(L)\n"),
+    ("pop-current", "def f():\n    L = [1, 2, 3, 4]\n    for x in L:\n        T(x)\n        L.pop(0)\n    return len(L)\n"),
+    ("set-resize", "def f():\n    s = {1}\n    for k in s:\n        T(k)\n        s.add(k + 1)\n    return 0\n"),
+    ("stopiteration", "def f():\n    it = iter([1, 2])\n    while True:\n        try:\n            T(next(it))\n        except StopIteration:\n            break\n    else:\n        T(99)\n    return 0\n"),
+    ("reversed-mutation", "def f():\n    L = [1, 2, 3]\n    for x in reversed(L):\n        T(x)\n        if x == 3:\n            L.append(7)\n    return len(L)\n"),
+    ("generator-side-effects-in-iter-expr", "def f():\n    for x in [T2(1), T2(2)]:\n        T(10 + x)\n    return 0\n"),
+]
+
+
+def iter_random(rng):
+    """a loop over a list that its own body edits, with a random edit script"""
+    n0 = rng.randrange(1, 5)
+    edits = []
+    for i in range(rng.randrange(1, 4)):
+        at = rng.randrange(0, 6)
+        op = rng.choice(["L.append(T2(%d))" % (50 + i), "L.pop()", "L.pop(0)", "L.insert(0, %d)" % (60 + i), "L.clear()",
+                         "L.remove(x)", "L.reverse()", "L.extend([7, 8])", "del L[-1]"])
+        edits.append((at, op))
+    lines = ["def f():", f"    L = list(range({n0}))", "    n = 0", "    for x in L:", "        T(x)", "        n += 1"]
+    for at, op in edits:
+        lines += [f"        if n == {at + 1} and L:", f"            {op}"]
+    lines += ["        if n > 12:", "            break"]
+    if rng.random() < 0.4:
+        lines += ["    else:", "        T(91)"]
+    lines += ["    return len(L) * 100 + n"]
+    return "\n".join(lines) + "\n"
+
+
+def iter_cases(rng, tier):
+    out = []
+    for name, src in ITER_TEMPLATES:
+        out.append(Case({"src": src, "tape": [], "family": "I", "features": ["iter", name]}, None, tags=["I", "iter", name]))
+    seen = set()
+    for _ in range(120 if tier == "quick" else 1500):
+        src = iter_random(rng)
+        if src in seen:
+            continue
+        seen.add(src)
+        out.append(Case({"src": src, "tape": [], "family": "I", "features": ["iter", "random-edits"]}, None,
+                        tags=["I", "iter", "random-edits"]))
+    return out
 
 
 # ------------------------------------------------------------------ running
@@ -334,6 +412,10 @@ def make_globals(tape, log):
     def T(i):
         log.append(f"T{i}")
 
+    def T2(i):
+        log.append(f"T{i}")
+        return i
+
     def D(i):
         """a tracer that is also a decision: consumes one tape cell (0 when the tape is exhausted)"""
         log.append(f"T{i}")
@@ -354,7 +436,7 @@ def make_globals(tape, log):
             log.append(f"ex{self.k}:{CLSNUM.get(t.__name__, t.__name__) if t else '-'}")
             return self.sup
 
-    return {"T": T, "D": D, "CM": CM, "E0": E0, "E1": E1, "E2": E2, "B0": B0}
+    return {"T": T, "T2": T2, "D": D, "CM": CM, "E0": E0, "E1": E1, "E2": E2, "B0": B0}
 
 
 def canon_exc(e):
@@ -436,7 +518,7 @@ def classify(c, reason):
         if not m or m.group(1) != c.payload.get("pyscript"):
             # the model does not reproduce this behaviour: not one of the modelled (known) deviations
             return "unmodelled:" + "+".join(sorted(f))
-    for k in ("baseexception",):      # the only open finding (C02-F1..F3 are fixed and must never be excused)
+    for k in ("baseexception", "stopiteration"):      # open findings (C02-F1..F3 are fixed and must never be excused)
         if k in f:
             return k
     return "other:" + "+".join(sorted(f))
